@@ -63,7 +63,7 @@ CHECKS = {
          "component ties, key column not first, no key) x 3 run sizes; every scenario x 8 removed-column sets (before / between / after the key "
          "columns) x padding across a 255-row boundary is replayed through BOTH real outputs (SortedBlocks decoded, SortedRows), compared "
          "with the expectation and with each other, and no spill file may remain after Close.",
-         "removed columns are never key columns; with duplicate keys either duplicate may survive in either output",
+         "removed columns are never key columns; with duplicate keys either duplicate may survive, but the same one in both outputs",
          "TLA+ spec Ingest.tla; TLC-enumerated scenarios replayed into pkg/sorter (both outputs)",
          "DESIGN.md 5/C19"),
  "C05": ("merge", "model_checking",
